@@ -613,6 +613,14 @@ func (sc *scene) queryRay(r *rand.Rand) (o, d v3, tmin, tmax float64, class stri
 
 func checkRay(c *run.Ctx, res *run.Result, sc *scene, b *built, r *rand.Rand, tol float64) {
 	o, d, tmin, tmax, class := sc.queryRay(r)
+	// a quarter of the ray queries continue the previous one: bit-identical origin, direction and max, a larger
+	// min - how a caller marches along a ray collecting successive hits
+	if sc.hasLastRay && r.Intn(4) == 0 {
+		if nm := sc.lastMin + sc.scale*(0.02+0.5*r.Float64()); nm < sc.lastMax {
+			o, d, tmin, tmax, class = sc.lastO, sc.lastD, nm, sc.lastMax, class+"/continued-with-larger-min"
+		}
+	}
+	sc.hasLastRay, sc.lastO, sc.lastD, sc.lastMin, sc.lastMax = true, o, d, tmin, tmax
 	n := len(sc.elems)
 	ray := geometry.NewRay(pv(o), pv(d))
 	d = fromPV(ray.Direction()) // the direction polyform will use (data, normalised by the constructor)
